@@ -198,17 +198,12 @@ STATE_RE = re.compile(r"(\d+) states generated, (\d+) distinct states found, (\d
 def run_tlc(module, cfg, metadir, workers=12, timeout=1800, env=None, simulate=None, extra=None, heap="8g", coverage=False):
     """Run TLC in /verif/spec.  Returns dict(out, generated, distinct, ok, err)."""
     e = dict(os.environ)
-    jopts = "-Xss1g"
-    if env and env.get("_DFS"):
-        jopts += " -Dtlc2.tool.queue.IStateQueue=StateDeque"
-    e["JAVA_TOOL_OPTIONS"] = jopts
+    dfs = ["-Dtlc2.tool.queue.IStateQueue=StateDeque"] if env and env.get("_DFS") else []
     if env:
         e.update({k: v for k, v in env.items() if not k.startswith("_")})
     shutil.rmtree(metadir, ignore_errors=True)
-    cmd = ["java", "-Xmx" + heap, "-XX:+UseParallelGC", "-cp", TLA_JAR + ":/opt/veriftools/tla/CommunityModules-deps.jar", "tlc2.TLC"]
+    cmd = ["java", "-Xss1g", "-Xmx" + heap, "-XX:+UseParallelGC"] + dfs + ["-cp", TLA_JAR + ":/opt/veriftools/tla/CommunityModules-deps.jar", "tlc2.TLC"]
     # fall back to the wrapper when the community jar name differs
-    if not os.path.exists("/opt/veriftools/tla/CommunityModules-deps.jar"):
-        cmd = ["tlc"]
     cmd += ["-workers", str(workers), "-metadir", metadir, "-cleanup", "-noGenerateSpecTE", "-config", cfg]
     if coverage:
         cmd += ["-coverage", "1"]
